@@ -4,7 +4,6 @@
 namespace vx {
 
 typedef __int128 i128;
-template<class S> inline unsigned nbits() { return 8 * sizeof(S); }
 
 template<class S> inline bool div_ok(S a, S b) {
     if (b == S(0)) return false;
